@@ -161,6 +161,11 @@ class SimThread:
                 raise SimCrash()
             if sim.trace_lines:
                 sys.settrace(sim._tracer)
+            if sim.start_delay is not None:
+                # a slow worker: the thread exists but gets the CPU only after a (virtual) while
+                d_ = sim.start_delay(self)  # may block by itself (event) or return a number of seconds
+                if d_ and d_ > 0:
+                    sim.sleep(d_)
             if self._target:
                 self.result = self._target(*self._args, **self._kwargs)
         except (SimCrash, SimAbort) as e:
@@ -364,6 +369,7 @@ class Sim:
         self.lazy_kinds: set[str] = set()  # thread kinds that run "arbitrarily late"
         self.frozen = False
         self.lazy_prefixes: tuple[str, ...] = ()  # thread-name prefixes that run "arbitrarily late" (a stalled worker)
+        self.start_delay: Any = None  # fn(SimThread) -> virtual seconds a new thread waits before its first statement
 
     # ------------------------------------------------------------------ actors
     def actor(self, name: str) -> Actor:
